@@ -171,9 +171,16 @@ def run(tier, seed, replay):
         if rr.random() < 0.3:
             parts.insert(rr.randrange(len(parts) + 1), {})           # the empty file is the identity
         # file names / patterns chosen so that glob order, pattern order and lexical order of cleaned paths all differ
-        style = rr.choice(["one-glob", "dirs", "multi-pattern", "unclean", "commas"])
+        style = rr.choice(["one-glob", "dirs", "multi-pattern", "unclean", "commas", "dotfiles"])
         if style == "one-glob":
             names = ["cfg/%02d.yaml" % i for i in range(len(parts))]
+            pats = ["cfg/*.yaml"]
+        elif style == "dotfiles":
+            # Go's Glob lets `*` match a leading dot, and "." sorts before digits and letters
+            names = ["cfg/.%02d.yaml" % i if i % 2 == 0 else "cfg/%02d.yaml" % i for i in range(len(parts))]
+            order_ = sorted(range(len(parts)), key=lambda i: names[i].encode())
+            names = [names[i] for i in order_]
+            names = sorted(names, key=lambda q: q.encode())
             pats = ["cfg/*.yaml"]
         elif style == "commas":
             # a pattern is one pattern, whatever punctuation it contains (commas, spaces, equal signs)
